@@ -21,7 +21,7 @@ WEIGHTS = {
     "tree_path": 9, "new_file": 8, "new_directory": 8, "new_symlink": 3, "create_path": 3, "assign_id": 1,
     "delete_contents": 8, "cancel_deletion": 1, "adjust_path": 16, "version_file": 6, "cancel_versioning": 1,
     "unversion_file": 6, "set_executability": 9, "create_file": 4, "create_directory": 4, "create_symlink": 2,
-    "cancel_creation": 2, "replace": 6, "delete_versioned": 3, "chmod_tree_file": 5,
+    "cancel_creation": 2, "replace": 6, "delete_versioned": 3, "chmod_tree_file": 5, "shadow": 6,
 }
 
 
@@ -139,6 +139,27 @@ def _gen_kind(rng, st, k):
         if full:
             return None
         return {"op": "assign_id"}
+    if k == "shadow":
+        # a versioned entry loses its contents but stays versioned, and another entry takes its name in the same directory
+        # (the other entry: new file / directory, a bare path that gets versioned, or an existing entry moved there)
+        if len(st.slots) > MAX_SLOTS - 2:
+            return None
+        cands = [q for q in sorted(st.versioned_paths) if q and st.tree_kinds.get(q) in ("file", "symlink", "directory")]
+        if not cands:
+            return None
+        how = rng.choice(["new_file", "new_file", "new_directory", "create_path", "adjust"])
+        op = {"op": "shadow", "path": rng.choice(cands), "how": how}
+        if how == "adjust":
+            live = st.live()
+            if not live:
+                op["how"] = how = "new_file"
+            else:
+                op["slot"] = rng.choice(live)
+        if how != "adjust":
+            op["file_id"] = st.fresh_id() if st.use_ids else "git"
+        if how == "new_file":
+            op["content"] = _content(rng)
+        return op
     if k == "chmod_tree_file":
         # the plainest exec-only change: flip the bit of a versioned file that gets nothing else
         slot_of = {s.path: i for i, s in enumerate(st.slots) if s.origin == "tree" and not s.dead}
@@ -227,6 +248,19 @@ def _gen_kind(rng, st, k):
 def note_op(st, op, ok):
     """Update the generator bookkeeping after op was executed on the primary transform (ok = it did not raise)."""
     k = op["op"]
+    if k == "shadow":
+        s = Slot("tree", op["path"], named=True)
+        s.dead = not ok
+        st.slots.append(s)
+        if op["how"] != "adjust":
+            n = Slot("new", None, named=True)
+            n.dead = not ok
+            if ok:
+                n.created = {"new_file": "file", "new_directory": "directory"}.get(op["how"])
+                n.new_id = True
+            st.used_new_ids.add(op["file_id"])
+            st.slots.append(n)
+        return
     if k in ("tree_path", "tree_path_exec"):
         s = Slot("tree", op["path"], named=True)
         s.dead = not ok
@@ -299,6 +333,24 @@ def execute(tt, ids, op, git):
     if k == "tree_path":
         ids.append(None)
         ids[-1] = tt.trans_id_tree_path(op["path"])
+    elif k == "shadow":
+        ids.append(None)
+        if op["how"] != "adjust":
+            ids.append(None)
+        t = tt.trans_id_tree_path(op["path"])
+        ids[-1 if op["how"] == "adjust" else -2] = t
+        tt.delete_contents(t)
+        d, name = os.path.split(op["path"])
+        parent = tt.trans_id_tree_path(d) if d else tt.root
+        if op["how"] == "adjust":
+            tt.adjust_path(name, parent, tid(op["slot"]))
+        elif op["how"] == "new_file":
+            ids[-1] = tt.new_file(name, parent, [op["content"]], _fid(op["file_id"], git), None)
+        elif op["how"] == "new_directory":
+            ids[-1] = tt.new_directory(name, parent, _fid(op["file_id"], git))
+        else:
+            ids[-1] = tt.create_path(name, parent)
+            tt.version_file(ids[-1], file_id=_fid(op["file_id"], git))
     elif k == "tree_path_exec":
         ids.append(None)
         t = tt.trans_id_tree_path(op["path"])
